@@ -77,6 +77,7 @@ type Describe struct {
 	RequiredProbes []string `json:"required_probes"`
 	Level          string   `json:"level"`
 	NotInjected    []string `json:"not_injected"`
+	RequiredSites  []string `json:"required_sites"`
 }
 
 type Finding struct {
@@ -891,6 +892,15 @@ func check(prop, tier string, seed int64, replay string, budget time.Duration, w
 	if exit == 0 && len(results) == 0 {
 		fmt.Println("HARNESS-ERROR: no run completed")
 		return 2
+	}
+	if exit == 0 && len(results) >= 50 {
+		sites := cov["hook_sites_reached"].(map[string]int)
+		for _, st := range desc.RequiredSites {
+			if sites[st] == 0 {
+				fmt.Printf("HARNESS-ERROR: hook mismatch: the instrumentation site %q in /repo was never reached in %d runs (a hooked line was removed or moved)\n", st, len(results))
+				return 2
+			}
+		}
 	}
 	if exit == 0 && tier == "thorough" {
 		totals := cov["probes_hit"].(map[string]int)
